@@ -9,6 +9,8 @@ import Rdm.Lemmas.BiasAReversal
 import Rdm.Lemmas.BiasARange
 import Rdm.Lemmas.BiasAReversalSpec
 import Rdm.Spec.C16
+import Rdm.Lemmas.E2EBiasesState
+import Rdm.Lemmas.E2EBiasesExample
 set_option linter.unusedSectionVars false
 open Rdm Rdm.BiasA
 namespace Rdm.Props.C16
@@ -230,5 +232,187 @@ example : ∃ (res : DMP Rat) (rep : List (Reversed Rat)) (ordered : List (Crit 
 /-- the constants and names this property depends on were re-read from the working tree on this run
     (none fell back to its pinned value because its declaration could not be located) -/
 theorem facts_fresh : (Rdm.Facts.staleFacts.all fun n => !["orderingWeakest", "orderingStrongest", "orderingRandom", "orderingWeakestByProbability", "orderingStrongestByProbability", "wiringOrderings", "biasReversal"].contains n) = true := by decide
+
+/-! ## END TO END: a fired preference reversal inside a whole request
+
+The theorems above are about one `PreferenceReversal.Apply` in isolation.  Below they are lifted to responses of
+`decideWith` (Model/Decide.lean): every entry of `resp.biases` that carries a reversal report — at any position
+of any bias list, whatever fired before and after, for all seven methods — is one `reversalApply` from the
+state `s` it received to the state `s'` it handed on (`E2EBFired`, Lemmas/E2EBiases.lean: `s` is the state handed
+on by the previous fired bias, or the request's).  The ranges, the ordering and the values of every clause are
+those of the CURRENT state `s`, not of the request.  The criteria ids of `s` are distinct because the request's are
+(`e2eb_fired_crit_nodup`); the ids of its known alternatives are those of the request (`e2eb_fired_frame`), so their
+distinctness becomes a hypothesis about the request. -/
+
+section e2e
+variable {exp : α → α} {o : List (WCrit α) → List (WCrit α)} {req : Request α} {g : Int → Draws α}
+  {resp : Response α} {params s s' : DMP α} {chosen : List (Chosen α (BProps α))} {i : Nat} {name : String}
+  {prob : α} {c : SplitCond α} {ord : String} {seed : Int} {rep : List (Reversed α)}
+
+/-- **Every reversal entry of a response that carries a report is one `PreferenceReversal.Apply` on the state
+    it received.** -/
+theorem fired_reversal_is_one_apply (h : decideWith exp o req g = .ok resp)
+    (hi : resp.biases[i]? = some ⟨name, prob, some (.reversal rep)⟩) :
+    ∃ params chosen c ord seed s s',
+      E2EBFired exp g req resp params chosen i ⟨name, prob, .split c ord seed⟩ (.reversal rep) s s' ∧
+      name = Facts.biasReversal ∧ reversalApply choquetEpsOf c ord s (g seed) = .ok (s', rep) := by
+  obtain ⟨params, chosen, props, s, s', hf⟩ := e2eb_fired h hi
+  obtain ⟨hn, c, ord, seed, hp, ha⟩ := e2eb_fired_reversal hf
+  dsimp only at hn hp
+  subst hp
+  exact ⟨params, chosen, c, ord, seed, s, s', hf, hn, ha⟩
+
+/-- the `Apply` call of a fired reversal entry -/
+theorem fired_reversal_apply
+    (hf : E2EBFired exp g req resp params chosen i ⟨name, prob, .split c ord seed⟩ (.reversal rep) s s') :
+    reversalApply choquetEpsOf c ord s (g seed) = .ok (s', rep) := by
+  obtain ⟨_, c', ord', seed', hp, ha⟩ := e2eb_fired_reversal hf
+  dsimp only at hp
+  cases hp
+  exact ha
+
+/-- `selected_first_k`, end to end: the reversed criteria are the first `k` of the ordering of the criteria of
+    the state RECEIVED (`k` = clamped pivot of their number), reported in that order with their type and the
+    range `CriteriaValuesRange` gives over all alternatives of the state received -/
+theorem selected_first_k_e2e
+    (hf : E2EBFired exp g req resp params chosen i ⟨name, prob, .split c ord seed⟩ (.reversal rep) s s') :
+    ∃ ordered, ∃ toRev : List (Crit α × (α × α)), orderCriteria choquetEpsOf ord s (g seed) = .ok ordered ∧
+      ordered.Perm s.crit ∧ toRev.map (·.1) = ordered.take (c.pivot s.crit.length).toNat ∧
+      (∀ cr ∈ toRev, valuesRange s.all cr.1 = .ok cr.2) ∧
+      rep.map (fun r => (r.id, r.type, r.range)) = toRev.map (fun cr => (cr.1.id, cr.1.type, cr.2)) :=
+  selected_first_k (fired_reversal_apply hf)
+
+/-- `frame`, end to end: criteria list and method parameters are handed on unchanged; ids, order and the
+    considered / not-considered split of the alternatives too -/
+theorem frame_e2e
+    (hf : E2EBFired exp g req resp params chosen i ⟨name, prob, .split c ord seed⟩ (.reversal rep) s s') :
+    s'.crit = s.crit ∧ s'.mp = s.mp ∧
+      s'.co.map (·.id) = s.co.map (·.id) ∧ s'.nc.map (·.id) = s.nc.map (·.id) :=
+  frame (fired_reversal_apply hf)
+
+/-- `values_mirrored`, end to end: every known alternative of the state received keeps id and criteria keys;
+    unselected values are untouched; every selected value `v` becomes `max − v + min` with `(min, max)` the
+    reported range (declared, or observed over the alternatives of the state RECEIVED).
+    Hypotheses about the request only: known ids pairwise different, `choseToMake` duplicate-free. -/
+theorem values_mirrored_e2e
+    (hf : E2EBFired exp g req resp params chosen i ⟨name, prob, .split c ord seed⟩ (.reversal rep) s s')
+    (hk : (req.known.map (·.id)).Nodup) (hch : req.chosen.Nodup) :
+    ∃ toRev : List (Crit α × (α × α)), rep.map (fun r => (r.id, r.range)) = toRev.map (fun cr => (cr.1.id, cr.2)) ∧
+      List.Forall₂ (Mirrored toRev) s.co s'.co ∧ List.Forall₂ (Mirrored toRev) s.nc s'.nc :=
+  values_mirrored (fired_reversal_apply hf) (e2eb_fired_crit_nodup hf).2.1 (e2eb_fired_alt_ids_nodup hf hk hch).1
+
+/-- `report_is_faithful`, end to end: the report lists exactly the mirrored criteria — the first `k` of the
+    ordering of the state received — with id, type, range, and for every known alternative AS HANDED ON exactly
+    the value it now holds -/
+theorem report_is_faithful_e2e
+    (hf : E2EBFired exp g req resp params chosen i ⟨name, prob, .split c ord seed⟩ (.reversal rep) s s')
+    (hk : (req.known.map (·.id)).Nodup) (hch : req.chosen.Nodup) :
+    ∃ ordered sel toRev, orderCriteria choquetEpsOf ord s (g seed) = .ok ordered ∧
+      sel = ordered.take (c.pivot ordered.length).toNat ∧
+      criteriaToReverse sel s = .ok toRev ∧ toRev.map (·.1) = sel ∧
+      List.Forall₂ (ReportEntryOk s'.all) toRev rep := by
+  obtain ⟨_, ordered, sel, rest, ho, hs, hr⟩ := reversalApply_ok (fired_reversal_apply hf)
+  have hp := orderCriteria_perm ho
+  have hsel : (sel.map (·.id)).Nodup := by
+    have hnd : (ordered.map (·.id)).Nodup := (hp.map _).nodup_iff.2 (e2eb_fired_crit_nodup hf).2.1
+    rw [← split_append hs, List.map_append] at hnd
+    exact (List.nodup_append.1 hnd).1
+  obtain ⟨toRev, ht, h1, h2⟩ := report_is_faithful hr hsel (e2eb_fired_alt_ids_nodup hf hk hch).1
+  exact ⟨ordered, sel, toRev, ho, (split_ok hs).2.2.1, ht, h1, h2⟩
+
+end e2e
+
+section e2eRat
+variable {exp : Rat → Rat} {o : List (WCrit Rat) → List (WCrit Rat)} {req : Request Rat} {g : Int → Draws Rat}
+  {resp : Response Rat} {params s s' : DMP Rat} {chosen : List (Chosen Rat (BProps Rat))} {i : Nat}
+  {name : String} {prob : Rat} {c : SplitCond Rat} {ord : String} {seed : Int} {rep : List (Reversed Rat)}
+
+/-- `selected_countOk`, end to end: the count clause (shared with C15) on the number of criteria RECEIVED -/
+theorem selected_countOk_e2e
+    (hf : E2EBFired exp g req resp params chosen i ⟨name, prob, .split c ord seed⟩ (.reversal rep) s s') :
+    Spec.C15.countOk c s.crit.length rep.length = true := selected_countOk (fired_reversal_apply hf)
+
+/-- `range_preserved`, end to end: the range of every criterion of the state received, over the known
+    alternatives, is the same before and after the entry (for the mirrored ones minimum and maximum are
+    exchanged, for the others no value changes); so is the range of any other criterion record whose id is not
+    the id of a mirrored criterion -/
+theorem range_preserved_e2e
+    (hf : E2EBFired exp g req resp params chosen i ⟨name, prob, .split c ord seed⟩ (.reversal rep) s s')
+    (hk : (req.known.map (·.id)).Nodup) (hch : req.chosen.Nodup) :
+    (∀ x ∈ s.crit, valuesRange s'.all x = valuesRange s.all x) ∧
+    (∀ x : Crit Rat, x.id ∉ rep.map (·.id) → valuesRange s'.all x = valuesRange s.all x) := by
+  obtain ⟨_, ordered, sel, rest, ho, hs, hr⟩ := reversalApply_ok (fired_reversal_apply hf)
+  have hp := orderCriteria_perm ho
+  have hnds := (e2eb_fired_crit_nodup hf).2.1
+  have hnd : (ordered.map (·.id)).Nodup := (hp.map _).nodup_iff.2 hnds
+  have hsel : (sel.map (·.id)).Nodup := by
+    rw [← split_append hs, List.map_append] at hnd
+    exact (List.nodup_append.1 hnd).1
+  obtain ⟨h1, h2⟩ := range_preserved hr hsel (e2eb_fired_alt_ids_nodup hf hk hch).1
+  have hsub : ∀ y ∈ sel, y ∈ s.crit := fun y hy =>
+    hp.subset (split_append hs ▸ List.mem_append_left _ hy)
+  have hrep : rep.map (·.id) = sel.map (·.id) := by
+    obtain ⟨toRev, resl, ht, _, _, _, _, _, hrp⟩ := reverseSelected_ok hr
+    have hh := reversalReport_heads toRev s.all (resl.map (·.2))
+    rw [← hrp] at hh
+    have := congrArg (List.map fun t : String × String × (Rat × Rat) => t.1) hh
+    simp only [List.map_map, Function.comp_def] at this
+    rw [this, ← (criteriaToReverse_ok ht).1, List.map_map]
+    rfl
+  constructor
+  · intro x hx
+    by_cases hmem : x.id ∈ sel.map (·.id)
+    · obtain ⟨y, hy, hxy⟩ := List.mem_map.mp hmem
+      have : y = x := List.inj_on_of_nodup_map hnds (hsub y hy) hx hxy
+      exact h1 x (this ▸ hy)
+    · exact h2 x hmem
+  · intro x hx
+    rw [hrep] at hx
+    exact h2 x hx
+
+/-- **`reversal_satisfies_spec`, end to end: every fired reversal entry of a response satisfies the reversal spec
+    w.r.t. the state it received.**  `Spec.C16.check` — selected = first `k` of the ordering of `s`, report ranges
+    = declared-or-observed in `s`, every known alternative holds and reports `hi + lo − v`, frame, observed
+    ranges preserved — accepts `(s, s', report)`, whatever biases ran before and after, for all seven methods.
+    Hypotheses: about the request — known ids pairwise different, `choseToMake` duplicate-free; about `s` — value
+    keys of every alternative distinct (Go maps), and if anything is reversed there is a known alternative. -/
+theorem reversal_satisfies_spec_e2e
+    (hf : E2EBFired exp g req resp params chosen i ⟨name, prob, .split c ord seed⟩ (.reversal rep) s s')
+    (hk : (req.known.map (·.id)).Nodup) (hch : req.chosen.Nodup)
+    (hkeys : ∀ a ∈ s.all, a.vals.keys.Nodup) (hne : rep ≠ [] → s.all ≠ []) :
+    ∃ ordered, orderCriteria choquetEpsOf ord s (g seed) = .ok ordered ∧
+      Spec.C16.check c ordered s s' rep = true ∧ Spec.C16.explain c ordered s s' rep = "ok" := by
+  obtain ⟨_, ordered, _, _, ho, _, _⟩ := reversalApply_ok (fired_reversal_apply hf)
+  have hc := (e2eb_fired_crit_nodup hf).2.1
+  have ha := (e2eb_fired_alt_ids_nodup hf hk hch).1
+  exact ⟨ordered, ho, reversal_satisfies_spec (fired_reversal_apply hf) ho hc ha hkeys hne,
+    reversal_explain_ok (fired_reversal_apply hf) ho hc ha hkeys hne⟩
+
+end e2eRat
+
+/-! ### the hypotheses are satisfiable: a request in which the reversal is the second fired bias -/
+
+/-- fatigue fires, an entry does not fire, then the reversal fires; every hypothesis of
+    `reversal_satisfies_spec_e2e` holds (of the request, and of the state the fatigue handed on), the report is
+    not empty, and the spec accepts the entry -/
+example : ∃ resp name prob rep n0 p0 r0 c ordered s s',
+    Rdm.decide id (e2ebExReq [e2ebExFatigue, e2ebExSkipped, e2ebExReversal]) e2ebExSeeds = .ok resp ∧
+    resp.biases[2]? = some ⟨name, prob, some (.reversal rep)⟩ ∧ resp.biases[0]? = some ⟨n0, p0, some r0⟩ ∧
+    rep ≠ [] ∧ Spec.C16.check c ordered s s' rep = true := by
+  obtain ⟨resp, name, prob, rp, hr, h2, hk, n0, p0, r0, h0⟩ := e2eb_firedWith
+    (r := Rdm.decide id (e2ebExReq [e2ebExFatigue, e2ebExSkipped, e2ebExReversal]) e2ebExSeeds)
+    (j := 0) (i := 2) (k := fun r => match r with | .reversal l => !l.isEmpty | _ => false) (by decide +kernel)
+  cases rp with
+  | reversal rep =>
+    obtain ⟨params, chosen, c, ord, seed, s, s', hf, _, _⟩ := fired_reversal_is_one_apply hr h2
+    have hs := e2eb_received_sat hf (k := fun s =>
+      decide (∀ a ∈ s.all, a.vals.keys.Nodup) && !s.all.isEmpty) (by decide +kernel)
+    simp only [Bool.and_eq_true, decide_eq_true_eq, Bool.not_eq_true', List.isEmpty_eq_false_iff] at hs
+    obtain ⟨ordered, _, hchk, _⟩ := reversal_satisfies_spec_e2e hf (by decide) (by decide) hs.1 (fun _ => hs.2)
+    refine ⟨resp, name, prob, rep, n0, p0, r0, c, ordered, s, s', hr, h2, h0, ?_, hchk⟩
+    intro e
+    rw [e] at hk
+    cases hk
+  | _ => cases hk
 
 end Rdm.Props.C16
